@@ -226,6 +226,79 @@ def r4_reducer_and_compare(ctx):
 
 
 # extra build configurations analysed in the thorough tier
+# one reviewed exception per (function, result type): the result cannot carry file events
+NO_FILES = {
+    ("<sos_account::local_account::LocalAccount as sos_account::traits::Account>::import_contacts", "SecretChange"):
+        "the secret created is Secret::Contact with default user data: it has no file attachment, so create_secret returns no file events",
+}
+
+
+def r5_file_events_not_dropped(ctx):
+    """The transfer queue (upload / move / delete on the server and other
+    devices) is built from the `file_events` that operations return: a result
+    struct carrying file events must be passed on whole or have that field read."""
+    ws = ctx.ws
+    r = ctx.rule("C17-R5", "file events returned by a nested operation are passed on (the `file_events` field of a result is never left unread)",
+                 floor=10, kind="K5 field coverage of intermediate results")
+    adts = {p_ for p_, a in ws.adts.items() if a["kind"] == "Struct" and a["variants"]
+            and any(f["name"] == "file_events" for f in a["variants"][0]["fields"])}
+    if not adts:
+        if ctx.config == "workspace":
+            r.anchor_missing("result structs with a file_events field")
+        return
+    n = 0
+    for root, fn in sorted(ws.fns.items()):
+        if fn.crate in idioms.TEST_CRATES:
+            continue
+        for b in fn.bodies:
+            cands = [l for l, ty in enumerate(b.locals) if re.sub(r"<.*", "", ty) in adts and l > b.argc]
+            if not cands:
+                continue
+            live = cfg.live_blocks(b)
+            use = {l: [False, False, False] for l in cands}   # any, whole, field
+            def see(p_):
+                l = cfg.place_local(p_)
+                if l in use:
+                    use[l][0] = True
+                    if "." not in p_:
+                        use[l][1] = True
+                    elif "file_events" in cfg.place_fields(p_):
+                        use[l][2] = True
+            for i in live:
+                blk = b.blocks[i]
+                for st in blk["s"]:
+                    if st.get("p"):
+                        see(st["p"])
+                    for o in st.get("ops", []) or []:
+                        p_ = cfg.op_place(o)
+                        if p_:
+                            see(p_)
+                for a in (blk.get("term") or {}).get("args", []) or []:
+                    p_ = cfg.op_place(a)
+                    if p_:
+                        see(p_)
+            idx = 0
+            for l in cands:
+                anyu, whole, field = use[l]
+                if not anyu:
+                    continue
+                n += 1
+                idx += 1
+                k = "%s|%s#%d" % (root, re.sub(r"<.*", "", b.locals[l]).rsplit("::", 1)[-1], idx)
+                why = NO_FILES.get((root, re.sub(r"<.*", "", b.locals[l]).rsplit("::", 1)[-1]))
+                if why and not (whole or field):
+                    r.ok(k, cfg.loc(b), "reviewed: " + why, work=1)
+                    continue
+                if whole or field:
+                    r.ok(k, cfg.loc(b), "the %s is %s" % (re.sub(r"<.*", "", b.locals[l]).rsplit("::", 1)[-1], "passed on whole" if whole else "taken apart including file_events"), work=len(live))
+                else:
+                    r.violation(k, cfg.loc(b),
+                                "a %s produced here is taken apart without its `file_events`: the file events of the nested operation never reach the caller, so the blob is not transferred/removed on the server and other devices" % re.sub(r"<.*", "", b.locals[l]).rsplit("::", 1)[-1],
+                                work=len(live))
+    if n < 10 and ctx.config == "workspace":
+        r.anchor_missing("intermediate results with file_events (found %d, 17 on the pinned tree)" % n)
+
+
 THOROUGH_CONFIGS = ['net-min']
 
 
@@ -236,10 +309,11 @@ def run(ctx):
         "a .upload temp file, the same chunks are hashed and written, and rename-into-place happens only on the "
         "digest==name edge under a cleanup guard; (R3) each external call of create/update/delete/move(_folder)_files "
         "is followed on every successful path by an append to the file log, and every FileMutationEvent variant is "
-        "mapped; (R4) reducer arms and copy-before-delete on server moves. Whether blob sets equal the reduced log "
+        "mapped; (R4) reducer arms and copy-before-delete on server moves; (R5) no result struct carrying file_events is taken apart without that field. Whether blob sets equal the reduced log "
         "after histories is not decided.")
     ctx.trust("sha2 Sha256", "tokio::fs::rename is atomic within a directory")
     r1_client_naming(ctx)
     r2_server_acceptance(ctx)
     r3_mutations_logged(ctx)
     r4_reducer_and_compare(ctx)
+    r5_file_events_not_dropped(ctx)
